@@ -372,6 +372,12 @@ impl NamingActor {
                     if instance.from_cluster == 0 {
                         cluster_delay_notify
                             .do_send(InstanceDelayNotifyRequest::RemoveInstance(instance));
+                    } else {
+                        cluster_delay_notify.do_send(
+                            InstanceDelayNotifyRequest::ForgetInstanceBeat(
+                                instance.get_instance_key(),
+                            ),
+                        );
                     }
                 }
             }
@@ -539,6 +545,18 @@ impl NamingActor {
             let instance = service.get_instance(&instance_short_key);
             self.do_notify(&tag, key.clone(), instance);
         } else {
+            //a copy from another node replaced the value: a heartbeat copy of the older value that is still queued
+            //here (the periodic 15 s batch) must not be sent out behind it
+            if matches!(
+                tag,
+                UpdateInstanceType::New | UpdateInstanceType::UpdateValue
+            ) {
+                if let Some(cluster_delay_notify) = &self.cluster_delay_notify {
+                    cluster_delay_notify.do_send(InstanceDelayNotifyRequest::ForgetInstanceBeat(
+                        instance_key.clone(),
+                    ));
+                }
+            }
             //如果不通知其它集群，则单独通知订阅者
             self.notify_to_subscriber(&tag, key.clone());
         }
